@@ -57,6 +57,7 @@ CorruptSteps == ({0, 1, N(t) \div 2, N(t) - t.k - 1, N(t) - t.k, N(t) - t.k + 1,
 Corruptions  == IF IOEnv.ST_SOUND = "1"
                 THEN SetToSeq({[c |-> c, i |-> i, violated |-> Violated(t, c, i)] : c \in CorruptCols, i \in CorruptSteps})
                 ELSE <<>>
-Emit == PrintT(ToJson([t |-> t, asserts |-> Asserts(t), corruptions |-> Corruptions]))
+Emit == PrintT(ToJson([t |-> t, asserts |-> Asserts(t), corruptions |-> Corruptions,
+                        ccols |-> NumCompositionCols(t), layers |-> NumFriLayers(t)]))
 View == t
 =============================================================================
